@@ -7,7 +7,7 @@ from concurrent.futures import ThreadPoolExecutor
 
 from vlib import NCPU, Inconclusive, write_evidence, known_match, save_replay, write_ndjson, read_ndjson
 
-CLS = ["valid", "hash_flip", "hash_prefixed", "hash_short", "hash_long", "sig_flip", "sig_short", "sig_long", "sig_badv", "sig_zero",
+CLS = ["valid", "hash_flip", "hash_prefixed", "hash_short", "hash_long", "sig_flip", "sig_short", "sig_long", "sig_badv", "sig_v27", "sig_zero",
        "text_changed", "empty_receipt", "empty_hash", "empty_sig"]
 
 
